@@ -18,10 +18,17 @@
    The histories run the model functions [a_step]; "programs" (run_program inside such an
    allocator) are covered by the correspondence/monitor runs only. The degenerate start
    new_limited(0) has heap_size 1 > 0 before any operation (hypothesis 1 <= limit).
+   C13_limit_monotone: the heap limit only ever removes successes - a history that meets no OutOfMemory
+   under limit L (on the reference accounting) has the same observations on the reference under every
+   L' >= L, and the real arena ends with the same counts and the same node contents under both limits
+   (through C12_history); this is also the LIMIT_HEAP clause of C07 (the flag only lowers the wheel's
+   allocator limit) and the "as long as neither run hits a limit" side condition of C03.
    Hypotheses: byte arguments are bytes (< 256); the history did not hit a Rust panic (API misuse:
    atom accessor on a pair, remove_ghost_pair below zero, new_small_number above 2^26 - 1). *)
 From Clvm Require Import Model.AllocHist Proofs.AllocBasics Proofs.AllocHeap Proofs.AllocOps
   Proofs.AllocInv Gen.AllocConsts.
+From Clvm Require Import Model.Alloc Model.AllocRef Proofs.AllocSim Proofs.AllocStraddle Proofs.LimitMonotone.
+From Coq Require Import Lia.
 Open Scope N_scope.
 
 Theorem C13_caps : forall fx limit h st, 1 <= limit -> Forall wf_op h ->
@@ -76,6 +83,41 @@ Example C13_witness :
   option_map (fun st => snd (a_step true st (ONewAtom []))) (a_final true 10 h) = Some (ObErr TooManyAtoms).
 Proof. vm_compute. repeat split. Qed.
 
+Theorem C13_limit_monotone_ref : forall L L' h, L <= L' -> no_oom (snd (r_run (r_init L) h)) = true ->
+  r_final L' h = relim_st L' (r_final L h) /\ snd (r_run (r_init L') h) = snd (r_run (r_init L) h).
+Proof. exact r_final_mono. Qed.
+
+Theorem C13_limit_monotone : forall fx L L' h st st',
+  1 <= L -> L <= L' -> Forall wf_op2 h ->
+  no_oom (snd (r_run (r_init L) h)) = true ->
+  a_final fx L h = Some st -> a_dead st = false -> a_f2 st = false ->
+  (forall st0, a_init L = Ok st0 -> substr_clean fx st0 h) ->
+  a_final fx L' h = Some st' -> a_dead st' = false -> a_f2 st' = false ->
+  (forall st0, a_init L' = Ok st0 -> substr_clean fx st0 h) ->
+  a_counts st' = a_counts st /\
+  exists ts, Forall2 (fun n t => denote (hp (a_al st)) n = Some t) (a_nodes st) ts /\
+             Forall2 (fun n t => denote (hp (a_al st')) n = Some t) (a_nodes st') ts.
+Proof. exact arena_limit_monotone. Qed.
+
+(* non-vacuity: a history with heap atoms, a concat, a substring, checkpoints and a GC roll-back fits
+   limit 3000 without OutOfMemory and gives the same counts under 3000 and 4294967295; under limit 700
+   it does meet OutOfMemory (so the premise is not trivially true) *)
+Definition lim_hist : list op :=
+  [ONewAtom [1; 2; 3; 4; 5]; ONewSmall 7; OCheckpoint; ONewPair 0 1; ONewSubstr 0 1 3; ONewConcat 7 [0; 3];
+   OTCheckpoint; ONewAtom (repeat 9 600%nat); ONewAtom (repeat 8 600%nat); ONewAtom [200; 1; 2]; OMaybeRestore 0 7;
+   ONewI64 (-1); ORestore 1; ONewU64 300].
+
+Example C13_limit_witness :
+  no_oom (snd (r_run (r_init 3000) lim_hist)) = true /\ no_oom (snd (r_run (r_init 700) lim_hist)) = false /\
+  option_map a_dead (a_final true 3000 lim_hist) = Some false /\ option_map a_f2 (a_final true 3000 lim_hist) = Some false /\
+  option_map a_dead (a_final true 4294967295 lim_hist) = Some false /\
+  option_map a_counts (a_final true 3000 lim_hist) = option_map a_counts (a_final true 4294967295 lim_hist) /\
+  snd (r_run (r_init 700) lim_hist) <> snd (r_run (r_init 3000) lim_hist).
+Proof. repeat split; try (vm_compute; reflexivity). vm_compute. discriminate. Qed.
+
+Print Assumptions C13_limit_monotone_ref.
+Print Assumptions C13_limit_monotone.
+Print Assumptions C13_limit_witness.
 Print Assumptions C13_caps.
 Print Assumptions C13_current.
 Print Assumptions C13_invariant.
